@@ -4,14 +4,18 @@ design check : MC_DataStore - heap model of the store layer (labels, cache, retu
                4 dataset classes x np_chunks x anchor {None, node 1, node 2} x user_instances_only x 5 label
                families, every read history of length <= 4 over {first, second, last} index, one functional
                call on the returned sample anywhere; NothingMutated / ArgsUntouched (action properties),
-               CacheIsCache0, ResultFunctionOfIndex, SameIndexSameSample, LenOK, MissingOK.
+               CacheIsCache0, ResultFunctionOfIndex, SameIndexSameSample, LenOK, MissingOK.  The same
+               properties on small-scope exhaustive label sets (Grid: every label set over 2 nodes of one
+               frame with 1-2 [quick] / 1-3 instances and of two frames with 1-2 + 1 instances [thorough]).
                Counter models that MUST violate: generate_centroids as coded (writes the midpoint through the
                anchor view: MissingOK at Build, ArgsUntouched at Call, SameIndexSameSample through the shallow
                sample copy) and a __getitem__ step writing through a view of the cache (NothingMutated).
-spec -> code  : TLC exports the configurations and maximal read histories it enumerated (MC_DataStore!Export);
-               each is replayed on a FRESH real dataset over in-memory sio.Labels; after construction and after
-               every __getitem__ the label arrays, every cache tensor / every .npz on disk and the returned
-               sample are compared with deep snapshots / with the first read of a fresh dataset.
+spec -> code  : TLC exports the configurations, label sets and maximal read histories it enumerated
+               (MC_DataStore!Export, PrintT from the reached states); each is replayed on a FRESH real dataset
+               over in-memory sio.Labels; after construction and after every __getitem__ the label arrays,
+               every cache tensor / every .npz on disk and the returned sample are compared with deep
+               snapshots / with the first read of a fresh dataset.  Some histories are replayed again with the
+               functional API applied to the returned sample's tensors in the middle (event Call(f)).
 code -> spec  : seeded random label sets, configurations (scale, stride, rgb, size matching, node count) and
                longer read sequences, same observation.
 judge        : Trace_DataStore (each event is the DataStore action; observation vs specification state),
@@ -54,9 +58,10 @@ def _job_config(job):
     _quiet()
     cfg, lab, hists, kw = job
     refs, out = {}, []
-    for reads in hists:
-        evs = du.replay(cfg, lab, reads, refs, **kw)
-        out.append(dict(cfg=du.trace_cfg(cfg), full_cfg=cfg, lab=du.lab_json(lab), ev=evs, reads=list(reads), kw=kw))
+    for h in hists:
+        reads, ca = (h["reads"], h["calls_after"]) if isinstance(h, dict) else (h, None)
+        evs = du.replay(cfg, lab, reads, refs, calls_after=ca, **kw)
+        out.append(dict(cfg=du.trace_cfg(cfg), full_cfg=cfg, lab=du.lab_json(lab), ev=evs, reads=list(reads), calls_after=ca, kw=kw))
     return out
 
 
@@ -173,10 +178,11 @@ def _detail(t, clause):
     e = t["ev"][min(ev_no, len(t["ev"])) - 1]
     c = t["full_cfg"]
     labtxt = "; ".join("f%d:[%s]" % (f + 1, ", ".join("%s%s" % (i["k"], "".join(str(p[2]) for p in i["p"])) for i in fr)) for f, fr in enumerate(t["lab"]))
-    return ("%s(np_chunks=%s, anchor_part=%s, user_instances_only=%s) labels(visibility) %s reads=%s event %d %s: %s" % (
-        WHERE[c["cls"]], c["chunks"], (None if c["anchor"] == 0 else c["anchor"] - 1), c["uio"], labtxt, t["reads"], ev_no, e["op"],
+    return ("%s(np_chunks=%s, anchor_part=%s, user_instances_only=%s) labels(visibility) %s reads=%s%s event %d %s: %s" % (
+        WHERE[c["cls"]], c["chunks"], (None if c["anchor"] == 0 else c["anchor"] - 1), c["uio"], labtxt, t["reads"],
+        (" (functional API applied to the returned sample after read %d)" % t["calls_after"]) if t.get("calls_after") is not None else "", ev_no, e["op"],
         ({k: e[k] for k in ("raised", "len", "src", "pts", "lab", "mem") if k in e} if e["op"] == "build"
-         else {k: e[k] for k in ("i", "raised", "res", "cache", "pts", "zero", "pzero", "lab", "mem")})))[:1500]
+         else {k: e[k] for k in ("i", "f", "raised", "res", "cache", "pts", "zero", "pzero", "lab", "mem") if k in e})))[:1500]
 
 
 # ------------------------------------------------------------------------------ run ------------
@@ -191,9 +197,12 @@ def run(tier, seed):
     pool = _Pool(max(1, min(NCPU, 16) - 2))
     ex = ThreadPoolExecutor(max_workers=8)
     try:
-        f_exp = ex.submit(run_tlc, "MC_DataStore", MC % (4, 0, "FALSE", "FALSE", 0, "CONSTRAINT Export"), workers=1, timeout=900)
-        f_main = ex.submit(check_model, "MC_DataStore", MC % (4, 0 if quick else 1, "FALSE", "FALSE", 0, ALL_PROPS), timeout=1500,
-                           workers=max(2, NCPU // 2), require_actions=("Build", "DoGetItem") + (() if quick else ("DoCall",)))
+        # the export run IS the design check of the 240 x 120 read histories (all properties, -coverage);
+        # thorough adds the same model with one functional call anywhere in the history
+        f_exp = ex.submit(check_model, "MC_DataStore", MC % (4, 0, "FALSE", "FALSE", 0, ALL_PROPS + "\nCONSTRAINT Export"), workers=1, timeout=900,
+                          require_actions=("Build", "DoGetItem"))
+        f_main = None if quick else ex.submit(check_model, "MC_DataStore", MC % (4, 1, "FALSE", "FALSE", 0, ALL_PROPS), timeout=1500,
+                                              workers=max(2, NCPU // 2), require_actions=("Build", "DoGetItem", "DoCall"))
         f_call = ex.submit(check_model, "MC_DataStore", MC % (2, 1, "FALSE", "FALSE", 0, ALL_PROPS), timeout=900, workers=1,
                            require_actions=("Build", "DoGetItem", "DoCall"))
         f_ac1 = ex.submit(check_model, "MC_DataStore", MC % (2, 1, "TRUE", "FALSE", 0, "INVARIANT MissingOK"), timeout=900, workers=1,
@@ -215,9 +224,10 @@ def run(tier, seed):
         if len(labs) != 240 or any(t not in labs for t in hists):
             raise TLCError("case-space export incomplete: %d configurations" % len(labs))
         total_hist = sum(len(v) for v in hists.values())
-        res.add_mc("MC_DataStore export (MaxReads=4): %d configurations, %d maximal read histories" % (len(labs), total_hist), rx,
+        res.add_mc("MC_DataStore 240 configurations, every read history of length <= 4 (%d maximal); case space exported" % total_hist, rx,
+                   "NothingMutated, ArgsUntouched, CacheIsCache0, ResultFunctionOfIndex, SameIndexSameSample, LenOK, MissingOK; "
                    "LAB / HIST lines printed from the states TLC reached")
-        per_cfg = 9 if quick else 10 ** 9
+        per_cfg = 7 if quick else 10 ** 9
         jobs = []
         for t in sorted(labs):
             cfg = du.cfg_of_tuple(t)
@@ -229,8 +239,13 @@ def run(tier, seed):
                 hs = must + rng.sample(rest, per_cfg - len(must))
             if not hs:
                 hs = [[]]  # no sample at all: construction and Len are still judged
+            else:
+                # the same histories again with the functional API applied to the sample returned by the 2nd read
+                # (Call(f) of the specification: allowed anywhere, must change nothing)
+                pick = [hs[0]] if quick else [hs[0], hs[len(hs) // 2], hs[-1]]
+                hs = hs + [dict(reads=h, calls_after=2) for h in pick]
             jobs.append((cfg, du.lab_from_vis(labs[t][0]), hs, {}))
-        n_rand = 600 if quick else 12000
+        n_rand = 300 if quick else 6000
         rjobs = []
         for _ in range(n_rand):
             cfg, lab, kw = random_case(rng)
@@ -238,7 +253,7 @@ def run(tier, seed):
             reads = [rng.randint(1, n) for _ in range(rng.randint(2, 8))] if n else []
             if n and rng.random() < 0.5:
                 reads.append(reads[0])
-            rjobs.append((cfg, lab, [reads], kw))
+            rjobs.append((cfg, lab, [dict(reads=reads, calls_after=rng.randint(1, len(reads) - 1)) if (reads and rng.random() < 0.25) else reads], kw))
         bat = {}
         for t in sorted(labs):
             cfg = du.cfg_of_tuple(t)
@@ -246,7 +261,7 @@ def run(tier, seed):
                 continue
             bat[(cfg["cls"], cfg["fam"], cfg["anchor"])] = (du.lab_from_vis(labs[t][0]), cfg["anchor"], seed)
         bjobs = list(bat.values())
-        for _ in range(10 if quick else 150):
+        for _ in range(10 if quick else 60):
             cfg, lab, kw = random_case(rng)
             bjobs.append((lab, cfg["anchor"], rng.randint(0, 10 ** 6)))
         # thorough: split the 81-history configurations so that the pool stays balanced
@@ -289,17 +304,40 @@ def run(tier, seed):
     traces = spec_traces + rand_traces + grid_traces
     for k, t in enumerate(traces):
         t["id"] = k
-    j = judge("Trace_DataStore", [dict(id=t["id"], cfg=t["cfg"], lab=t["lab"], ev=t["ev"]) for t in traces],
-              cfg_text=TRACE_CFG, per_shard_min=300, timeout=1500)
+    # binding canaries: two corrupted copies of a history of the control family (a returned sample marked as
+    # different from the fresh read; len(dataset) off by one) MUST be rejected by TLC
+    import copy
+
+    base = next((t for t in spec_traces if t["full_cfg"].get("fam") == 5 and t["full_cfg"]["cls"] == "bottomup"
+                 and len(t["ev"]) >= 3 and t["ev"][-1]["op"] == "get" and not any(e["raised"] for e in t["ev"])), None)
+    canaries = []
+    if base is not None:
+        c1, c2 = copy.deepcopy(base), copy.deepcopy(base)
+        c1["ev"][-1]["res"] = 1
+        c2["ev"][0]["len"] += 1
+        for k, c in enumerate((c1, c2)):
+            c["id"] = len(traces) + k
+            canaries.append(c)
+    j = judge("Trace_DataStore", [dict(id=t["id"], cfg=t["cfg"], lab=t["lab"], ev=t["ev"]) for t in traces + canaries],
+              cfg_text=TRACE_CFG, per_shard_min=500, timeout=1500)
+    got = {int(cid): clause for cid, clause in j["rejected"] if int(cid) >= len(traces)}
+    if len(got) != len(canaries):  # (on a broken tree the base itself may be rejected first: any clause counts)
+        raise TLCError("binding canaries not rejected: %s" % (got,))
+    j["rejected"] = [(cid, clause) for cid, clause in j["rejected"] if int(cid) < len(traces)]
+    j["rejected_n"] -= len(canaries)
+    res.coverage["binding_canaries_rejected"] = sorted(got.values()) if canaries else "skipped (no control history available)"
     res.add_judge("Trace_DataStore", j, "%d histories exported by TLC (of %d) + %d seeded random histories + %d small-scope label-set cases exported by TLC" % (len(spec_traces), total_hist, len(rand_traces), len(grid_traces)))
     seen = {}
     for cid, clause in j["rejected"]:
         t = traces[int(cid)]
         key = dict(where=WHERE[t["full_cfg"]["cls"]], kind=_kind(clause))
+        evno = clause.rsplit("_", 1)[1]
+        if evno.isdigit() and 1 <= int(evno) <= len(t["ev"]) and t["ev"][int(evno) - 1]["op"] == "call":
+            key["where"] = t["ev"][int(evno) - 1]["f"]  # the helper that was applied to the returned sample
         sig = (key["where"], key["kind"])
         seen[sig] = seen.get(sig, 0) + 1
         if seen[sig] <= 4:
-            res.violation(key, clause, dict(type="dataset", cfg=t["full_cfg"], lab=t["lab"], reads=t["reads"], kw=t["kw"]), _detail(t, clause))
+            res.violation(key, clause, dict(type="dataset", cfg=t["full_cfg"], lab=t["lab"], reads=t["reads"], calls_after=t["calls_after"], kw=t["kw"]), _detail(t, clause))
     if j["rejected_n"] > len(j["rejected"]):
         res.coverage["rejections_not_listed"] = j["rejected_n"] - len(j["rejected"])
     res.coverage["rejected_by_key"] = {"%s/%s" % k: n for k, n in sorted(seen.items())}
@@ -323,11 +361,11 @@ def run(tier, seed):
 
     # ---- design checks (ran in the background) -------------------------------------------------
     try:
-        r = f_main.result()
-        res.add_mc("MC_DataStore 240 configurations, reads<=4, calls<=%d" % (0 if quick else 1), r,
-                   "NothingMutated, ArgsUntouched, CacheIsCache0, ResultFunctionOfIndex, SameIndexSameSample, LenOK, MissingOK")
-        if r.violation:
-            raise TLCError("DataStore design check failed: %s\n%s" % (r.violation, r.out[-2500:]))
+        if f_main is not None:
+            r = f_main.result()
+            res.add_mc("MC_DataStore 240 configurations, reads<=4, one functional call anywhere", r, "same properties")
+            if r.violation:
+                raise TLCError("DataStore design check failed: %s\n%s" % (r.violation, r.out[-2500:]))
         r = f_call.result()
         res.add_mc("MC_DataStore reads<=2, one functional call anywhere", r, "same properties")
         if r.violation:
@@ -353,6 +391,8 @@ def run(tier, seed):
         c, lab = t["full_cfg"], t["lab"]
         if rereads(t):
             res.clause("history_rereads_an_index")
+        if t.get("calls_after") is not None:
+            res.clause("history_with_functional_calls_on_the_returned_sample")
         if c["chunks"]:
             res.clause("np_chunks")
         if c["anchor"] and any(any(p[2] for p in i["p"]) and i["p"][c["anchor"] - 1][2] == 0 for fr in lab for i in fr if c["anchor"] <= len(i["p"])):
@@ -369,13 +409,13 @@ def run(tier, seed):
             res.clause("sample_with_identically_zero_confmap_channel")
     res.clause("functional_calls_on_views", sum(1 for c in calls if any(a["name"].endswith(".base") for a in c["args"])))
     res.clause("process_lf_filtered_lf_instances_in_place (as coded)", sum(c.get("filtered_in_place", 0) for c in calls))
-    nontrivial = {(str(t["full_cfg"]), str(t["lab"]), str(t["reads"])) for t in traces if rereads(t) or has_missing(t)}
+    nontrivial = {(str(t["full_cfg"]), str(t["lab"]), str(t["reads"]), str(t.get("calls_after"))) for t in traces if rereads(t) or has_missing(t)}
     res.coverage.update(
         evaluations=len(traces) + len(calls), distinct_nontrivial=len(nontrivial), exhaustive=not quick,
         spec_histories_total=total_hist, spec_histories_replayed=len(spec_traces), random_histories=len(rand_traces),
         functional_calls=len(calls), grid_cases=len(grid_traces),
         rule="spec->code: the maximal read histories (length 4 over first/second/last index) TLC exported for the 240 configurations "
-             "(all %d when thorough; [1,1,1,1], [1,2,1,2], [2,1,1,2] + a seeded sample, 9 per configuration, when quick), each on a fresh real dataset over "
+             "(all %d when thorough; [1,1,1,1], [1,2,1,2], [2,1,1,2] + a seeded sample, 7 per configuration, when quick), each on a fresh real dataset over "
              "lattice labels (quarter pixel, unique per frame/animal/node, inside the image); code->spec: seeded random label sets "
              "(1-5 frames, 0-3 instances, 2-5 nodes, user/predicted, empty / partial / single-node instances), scale in {1, 0.5, 2}, size matching, "
              "max_stride, rgb, 2-9 reads over all indices; small scope: every label set over 2 nodes of one frame with 1-2 instances (quick) / one frame with 1-3 instances and "
@@ -413,8 +453,8 @@ def replay(rp, seed):
     kw = dict(c.get("kw") or {})
     if "hw" in kw:
         kw["hw"] = tuple(kw["hw"])
-    evs = du.replay(c["cfg"], c["lab"], c["reads"], None, **kw)
-    t = dict(id=0, cfg=du.trace_cfg(c["cfg"]), lab=c["lab"], ev=evs, full_cfg=c["cfg"], reads=c["reads"])
+    evs = du.replay(c["cfg"], c["lab"], c["reads"], None, calls_after=c.get("calls_after"), **kw)
+    t = dict(id=0, cfg=du.trace_cfg(c["cfg"]), lab=c["lab"], ev=evs, full_cfg=c["cfg"], reads=c["reads"], calls_after=c.get("calls_after"))
     j = judge("Trace_DataStore", [dict(id=0, cfg=t["cfg"], lab=t["lab"], ev=t["ev"])], cfg_text=TRACE_CFG, shards=1)
     for cid, clause in j["rejected"]:
         res.violation(rp["key"], clause, c, _detail(t, clause))
